@@ -29,13 +29,19 @@ func c18Evaluated(c *core.Ctx) {
 
 // checkWorkerWidth: a record whose width differs from the reference's is reported on the error channel.
 func checkWorkerWidth(c *core.Ctx, tabs *Tables) {
+	for _, w := range []struct{ pkg, name string }{{"pkg/snps", "getSNPs"}, {"pkg/updown", "getLines"}, {"pkg/variants", "getVariants"}} {
+		checkWorkerWidthOf(c, tabs, "T", w.pkg, w.name)
+	}
+}
+
+func checkWorkerWidthOf(c *core.Ctx, tabs *Tables, prefix, wpkg, wname string) {
 	if tabs == nil || !tabs.OK {
 		return
 	}
-	for _, w := range []struct{ pkg, name string }{{"pkg/snps", "getSNPs"}, {"pkg/updown", "getLines"}, {"pkg/variants", "getVariants"}} {
+	for _, w := range []struct{ pkg, name string }{{wpkg, wname}} {
 		for _, delta := range []int64{1, -1} {
 			fn := c.LookupFunc(w.pkg, w.name)
-			key := "T/reference-alignment-width/" + w.name
+			key := prefix + "/reference-alignment-width/" + w.name
 			what := "wider"
 			if delta < 0 {
 				key += "/narrower"
@@ -86,10 +92,44 @@ func checkWorkerWidth(c *core.Ctx, tabs *Tables) {
 			}
 			_, err := ev.CallFuncBound(fn, args.args...)
 			if err != nil && len(args.errs.Sent) == 0 {
+				// the abstract evaluation ran into the column loop (no guard stopped it); decide on a concrete record
+				if sent, rows, cerr, ok := concreteWidthRun(c, tabs, w.pkg, w.name, delta); ok {
+					c.Ob(key, sent >= 1 && rows == 0, fn.Pos(), "a record one column %s than a four-column reference: %d error(s) reported, %d row(s) produced (%v); the record must be refused and give no row", what, sent, rows, cerr)
+					continue
+				}
 				c.Und(key, fn.Pos(), "cannot evaluate: %v", err)
 				continue
 			}
 			c.Ob(key, len(args.errs.Sent) >= 1, fn.Pos(), "a record one column %s than the reference is not reported as an error", what)
 		}
 	}
+}
+
+// concreteWidthRun: getSNPs / getLines on the reference ACGT and one record of 4+delta columns.
+func concreteWidthRun(c *core.Ctx, tabs *Tables, pkg, name string, delta int64) (errsSent, rows int, evalErr error, ok bool) {
+	if name != "getSNPs" && name != "getLines" {
+		return 0, 0, nil, false
+	}
+	fn := c.LookupFunc(pkg, name)
+	recT := namedType(c, "pkg/fastaio", "EncodedFastaRecord")
+	if fn == nil || recT == nil {
+		return 0, 0, nil, false
+	}
+	enc := func(s string) eval.Value {
+		vs := make([]eval.Value, len(s))
+		for i := 0; i < len(s); i++ {
+			vs[i] = eval.K(tabs.Soft[s[i]])
+		}
+		return eval.NewSlice(vs...)
+	}
+	seq := "ACGTA"[:4+delta]
+	rec := absValue(recT, "r", eval.K(int64(len(seq)))).(*eval.StructVal)
+	rec.F["ID"] = eval.S("q")
+	rec.F["Description"] = eval.S("q")
+	rec.F["Idx"] = eval.K(0)
+	rec.F["Seq"] = enc(seq)
+	ev := newEval(c)
+	out, errs := &eval.ChanVal{Name: "out"}, &eval.ChanVal{Name: "err"}
+	_, err := ev.CallFunc(fn, enc("ACGT"), &eval.ChanVal{Name: "in", Feed: []eval.Value{rec}}, out, errs)
+	return len(errs.Sent), len(out.Sent), err, true
 }
